@@ -9,10 +9,11 @@
    current answer has made (they are in the heap while it is suspended, and are taken out again when it
    is resumed or closed: the try/finally of Variable.unify), and its allocation counter.
 
-   What is followed literally: YP.query = atom(name); the facts of (name, arity) as they are WHEN THE
-   GOAL IS REACHED (copy-on-write lists: a snapshot), then - only when those are exhausted - the function
-   found in eval_context AT THAT MOMENT under '<name>_<arity>', else '<name>_n', unless the name is
-   reserved; Answer.match = unify_arrays of the goal arguments with a copy of the fact that has new
+   What is followed literally: YP.query (after the repair of the late lookup): when the goal is reached (first
+   resumption of the call) the blacklist test and the lookup in eval_context under '<name>_<arity>', else
+   '<name>_n', are done and atom(name) and the facts of (name, arity) are taken as they are AT THAT MOMENT
+   (copy-on-write lists: a snapshot); the facts are matched first, then the function found at the start is run,
+   whatever was loaded / registered / cleared in between; Answer.match = unify_arrays of the goal arguments with a copy of the fact that has new
    variables; a compiled function tries its clauses in order; dereferencing goes through the whole
    shared heap (Unify.unify on  own bindings ++ everything else that is bound; written unify_arrays2 / den2,
    which are proved equal to Unify.unify_arrays / Term.den in Engine/Deref.v and evaluate faster).
@@ -167,7 +168,7 @@ Definition builtin_ctx : list (str * list defn) :=
 Inductive frame :=      (* tr: the bindings this query has made on the path to the frame; cnt: cells in use there *)
 | FGoals (tr : store) (cnt : nat) (gs : list goal)                                     (* continue with these goals *)
 | FFact (tr : store) (cnt : nat) (args : list term) (f : list term) (rest : list goal) (* next clause of a fact snapshot *)
-| FFun (tr : store) (cnt : nat) (nm : str) (args : list term) (rest : list goal)      (* facts exhausted: look the function up NOW *)
+| FFun (tr : store) (cnt : nat) (fn : option (list defn)) (args : list term) (rest : list goal) (* after the facts: the function that was looked up when the call started *)
 | FClause (tr : store) (cnt : nat) (args : list term) (cl : clause) (rest : list goal). (* next clause of a called function *)
 
 Record cursor := mkcur {
@@ -203,7 +204,8 @@ Fixpoint search (fuel : nat) (d : db) (h0 : store) (fresh : nat -> nat) (fr : li
     | FGoals tr cnt [] :: r => SAns tr r names
     | FGoals tr cnt ((nm, args) :: gs) :: r =>
         search fuel d h0 fresh
-               (map (fun f => FFact tr cnt args f gs) (find_facts d nm (length args)) ++ FFun tr cnt nm args gs :: r)
+               (map (fun f => FFact tr cnt args f gs) (find_facts d nm (length args))
+                  ++ FFun tr cnt (find_function d nm (length args)) args gs :: r)
                (nm :: names)
     | FFact tr cnt args f gs :: r =>
         let f' := map (rn (fun i => fresh (cnt + i))) f in
@@ -213,8 +215,8 @@ Fixpoint search (fuel : nat) (d : db) (h0 : store) (fresh : nat -> nat) (fr : li
         | UOof => SErr 1
         | UCyc => SErr 2
         end
-    | FFun tr cnt nm args gs :: r =>
-        match find_function d nm (length args) with
+    | FFun tr cnt fn args gs :: r =>
+        match fn with
         | None => search fuel d h0 fresh r names
         | Some ds =>
             match clauses_of ds with
